@@ -582,8 +582,8 @@ func Check(c Case) (v vcase.Verdict) {
 
 // ---------------------------------------------------------------------------
 
-var specificKeys = []string{".name", "/size", "/kind", "/gomaxprocs", "goos", "pkg", "commit", "note", ".file"}
-var fileKeyPool = []string{"goos", "pkg", "commit", "note", "cpu", "extra"}
+var specificKeys = []string{".name", "/size", "/kind", "/gomaxprocs", "goos", "pkg", "commit", "note", ".file", "cpu/model"}
+var fileKeyPool = []string{"goos", "pkg", "commit", "note", "cpu", "extra", "cpu/model"}
 var valPool = []string{"linux", "darwin", "1", "2", "abc", "x y", "é", "12", "21", "1", "2", "ab", "c"}
 
 func genName(t *rapid.T, arbitrary bool) string {
@@ -592,7 +592,7 @@ func genName(t *rapid.T, arbitrary bool) string {
 	}
 	n := rapid.SampledFrom([]string{"Foo", "Bar", "Baz/pos", "Merge-Sort", "Baz/type=big-endian", "X-1/pos"}).Draw(t, "base")
 	if rapid.Bool().Draw(t, "hs") {
-		n += "/size=" + rapid.SampledFrom([]string{"1", "2", "4k", "", "12", "21", "big-endian"}).Draw(t, "size")
+		n += "/size=" + rapid.SampledFrom([]string{"1", "2", "4k", "", "12", "21", "big-endian", "x=1", "y=1", "=", "a=b=1"}).Draw(t, "size")
 	}
 	if rapid.Bool().Draw(t, "hk") {
 		n += "/kind=" + rapid.SampledFrom([]string{"a", "b", "1", "2", "12"}).Draw(t, "kind")
